@@ -395,6 +395,7 @@ def run(ctx):
                             expect_reject(ctx, "text-encoded", {"route": "text-encoded", "s": s}, ue, {"ValueError"}, ("text-enc",) + sig)
                         else:
                             _late(ctx, ue, s, sig)
+                            _late_fresh(ctx, s, sig)
                 for t in PORT_TEXTS_ZEROS + ([str(DEFAULT[scheme]).zfill(4)] if scheme in DEFAULT else []):
                     s = pre + ":" + t + "/p"
                     u = guarded(URL, s)
@@ -455,6 +456,25 @@ def _late(ctx, ue, s, sig):
         ctx.count("rejected_late_ok")
         return
     ctx.fail("accepted_invalid_port", {"route": "text-encoded", "s": s}, f"encoded=True: explicit_port={r!r}")
+
+
+def _late_fresh(ctx, s, sig):
+    """Each port-reporting accessor, asked FIRST on a fresh pre-encoded object (nothing memoised yet): 'port falls back to the scheme
+    default only when none is written', so a written invalid port can neither read as a number nor as the default."""
+    from yarl import URL
+
+    for name, get in (("port", lambda u: u.port), ("explicit_port", lambda u: u.explicit_port), ("is_default_port", lambda u: u.is_default_port())):
+        u = guarded(URL, s, encoded=True)
+        if is_exc(u):
+            return
+        r = guarded(get, u)
+        ctx.ev(("text-enc-fresh", name) + sig[:2])
+        if is_exc(r) and r.type == "ValueError":
+            ctx.count("rejected_late_ok")
+        elif name == "is_default_port" and r is False:
+            ctx.count("invalid_port_not_default_ok")
+        else:
+            ctx.fail("accepted_invalid_port", {"route": "text-encoded-" + name, "s": s}, f"encoded=True: fresh object, .{name} -> {r!r}")
 
 
 def finalize(merged, results, tier):
